@@ -394,6 +394,306 @@ Definition norm_instr (i : instr) : instr :=
   | _ => i
   end.
 
+(** * Definitions with an indented body (DEFCAL, DEFCAL MEASURE, DEFCIRCUIT, DEFFRAME, DEFWAVEFORM)
+
+    A top-level [item] is a plain instruction or a block definition.  Bodies are lists of plain
+    instructions: a definition inside a body is the open finding [nested-block-definition] and is
+    not representable (the body parser answers [Unk] on it, like [p_command]); an empty body /
+    attribute map / entry list is the open finding [empty-definition-body] ([wf_item] excludes it
+    by [nonempty]). *)
+Inductive attrval := AVString (s : N) | AVExpr (e : expr).
+
+Inductive item :=
+| Plain (i : instr)
+| DefCal (mods : list modifier) (name : ident) (params : list expr) (qs : list qubit)
+         (body : list instr)
+| DefCalMeasure (name : option ident) (q : qubit) (target : option ident) (body : list instr)
+| DefCircuit (name : ident) (params : list ident) (qvars : list ident) (body : list instr)
+| DefFrame (f : frame) (attrs : list (ident * attrval))
+| DefWaveform (name : ident) (ext : option ident) (params : list ident) (entries : list expr).
+
+(** ** Printer.  [print_core] is the text up to and excluding the trailing newline that DEFCAL
+    MEASURE and DEFCIRCUIT write after their body ([print_trail]); a program writes a newline
+    after every item and the lexer makes one NEWLINE token of consecutive newlines. *)
+Definition print_body (body : list instr) : list tok :=
+  flat_map (fun i => TNewLine :: TIndent :: print_instr i) body.
+
+Fixpoint sep_vars (l : list ident) : list tok :=
+  match l with
+  | [] => []
+  | x :: t => match t with [] => [TVar x] | _ => TVar x :: TComma :: sep_vars t end
+  end.
+
+(** [write_parameter_string]: [(%a, %b)], nothing for no parameters *)
+Definition print_var_params (l : list ident) : list tok :=
+  match l with [] => [] | _ => TLParen :: sep_vars l ++ [TRParen] end.
+
+Definition print_attr (a : ident * attrval) : list tok :=
+  TNewLine :: TIndent :: TId (fst a) :: TColon ::
+  match snd a with AVString s => [TString s] | AVExpr e => print_e e end.
+
+Definition print_core (it : item) : list tok :=
+  match it with
+  | Plain i => print_instr i
+  | DefCal mods name ps qs body =>
+      TCmd CDefCal :: map TModifier mods ++ TId name :: print_params ps ++ map print_qubit qs
+        ++ TColon :: print_body body
+  | DefCalMeasure name q target body =>
+      TCmd CDefCal :: TCmd CMeasure :: (match name with Some n => [TBang; TId n] | None => [] end)
+        ++ print_qubit q :: (match target with Some t => [TId t] | None => [] end)
+        ++ TColon :: print_body body
+  | DefCircuit name ps qvars body =>
+      TCmd CDefCircuit :: TId name :: print_var_params ps ++ map TId qvars
+        ++ TColon :: print_body body
+  | DefFrame f attrs => TCmd CDefFrame :: print_frame f ++ TColon :: flat_map print_attr attrs
+  | DefWaveform name ext ps entries =>
+      TCmd CDefWaveform :: TId name :: (match ext with Some x => [TOp OSlash; TId x] | None => [] end)
+        ++ print_var_params ps ++ TColon :: TNewLine :: TIndent :: sep_exprs entries
+  end.
+
+Definition print_trail (it : item) : list tok :=
+  match it with DefCalMeasure _ _ _ _ | DefCircuit _ _ _ _ => [TNewLine] | _ => [] end.
+
+(** the tokens of [Instruction::to_quil] *)
+Definition print_item (it : item) : list tok := print_core it ++ print_trail it.
+
+(** the tokens of [Program::to_quil] for a program that is this list of instructions *)
+Definition print_items (l : list item) : list tok :=
+  flat_map (fun it => print_core it ++ [TNewLine]) l.
+
+(** ** Parser ([parse_block], [parse_defcal], [parse_defcircuit], [parse_defframe],
+    [parse_defwaveform] in parser/command.rs)
+
+    [parse_block] = [many1(NewLine Indentation parse_instruction)]; [parse_instruction] skips
+    newlines / comments first and fails recoverably at the end of input (the block then ends
+    before that line).  Every other failure of a body line makes the whole program fail (either
+    directly — command errors are nom failures — or because the block ends before a line that
+    the top level cannot parse either: it starts with an indentation), so the model returns
+    [Err] for it. *)
+Fixpoint p_body (vr : variant) (fuel : nat) (ts : list tok) : res (list instr) :=
+  match fuel with
+  | O => Fuel
+  | S f =>
+      match ts with
+      | TNewLine :: TIndent :: r =>
+          match skip r with
+          | [] => Ok [] ts
+          | r1 =>
+              match p_instruction vr r1 with
+              | Ok i r2 =>
+                  match p_body vr f r2 with
+                  | Ok l r3 => Ok (i :: l) r3
+                  | o => o
+                  end
+              | Err => Err | Panic => Panic | Unk => Unk | Fuel => Fuel
+              end
+          end
+      | _ => Ok [] ts
+      end
+  end.
+
+Definition p_block (vr : variant) (ts : list tok) : res (list instr) :=
+  match p_body vr (S (length ts)) ts with
+  | Ok [] _ => Err
+  | o => o
+  end.
+
+Definition p_colon (ts : list tok) : res unit :=
+  match ts with TColon :: r => Ok tt r | _ => Err end.
+
+(** [separated_list0(Comma, Variable)] in parentheses, optional; nothing consumed if the group
+    does not close *)
+Fixpoint p_vars_tail (ts : list tok) : list ident * list tok :=
+  match ts with
+  | TComma :: r0 =>
+      match r0 with
+      | TVar x :: r => let '(l, r') := p_vars_tail r in (x :: l, r')
+      | _ => ([], ts)
+      end
+  | _ => ([], ts)
+  end.
+
+Definition p_var_params (ts : list tok) : list ident * list tok :=
+  match ts with
+  | TLParen :: r =>
+      let '(l, r1) :=
+        match r with
+        | TVar x :: r0 => let '(l, r') := p_vars_tail r0 in (x :: l, r')
+        | _ => ([], r)
+        end in
+      match r1 with
+      | TRParen :: r2 => (l, r2)
+      | _ => ([], ts)
+      end
+  | _ => ([], ts)
+  end.
+
+(** [many0(parse_variable_qubit)] *)
+Fixpoint p_qvars (ts : list tok) : list ident * list tok :=
+  match ts with
+  | TVar x :: r => let '(l, r') := p_qvars r in (x :: l, r')
+  | TId x :: r => let '(l, r') := p_qvars r in (x :: l, r')
+  | _ => ([], ts)
+  end.
+
+(** [many0(parse_frame_attribute)]: a line that is not an attribute ends the list *)
+Fixpoint p_attrs (fuel : nat) (ts : list tok) : res (list (ident * attrval)) :=
+  match fuel with
+  | O => Fuel
+  | S f =>
+      match ts with
+      | TNewLine :: TIndent :: TId k :: TColon :: r =>
+          match r with
+          | TString s :: r1 =>
+              match p_attrs f r1 with
+              | Ok l r2 => Ok ((k, AVString s) :: l) r2
+              | o => o
+              end
+          | _ =>
+              match p_expr r with
+              | Ok e r1 =>
+                  match p_attrs f r1 with
+                  | Ok l r2 => Ok ((k, AVExpr e) :: l) r2
+                  | o => o
+                  end
+              | Err => Ok [] ts
+              | Panic => Panic | Unk => Unk | Fuel => Fuel
+              end
+          end
+      | _ => Ok [] ts
+      end
+  end.
+
+Definition p_defcal_gate (vr : variant) (ts : list tok) : res item :=
+  match p_gate ts with
+  | Ok (IGate mods name ps qs) r =>
+      bind (p_colon r) (fun _ r1 => bind (p_block vr r1) (fun body r2 =>
+        Ok (DefCal mods name ps qs body) r2))
+  | Ok _ _ => Err
+  | Err => Err | Panic => Panic | Unk => Unk | Fuel => Fuel
+  end.
+
+Definition p_defcal_measure (vr : variant) (ts : list tok) : res item :=
+  let '(name, r1) :=
+    match ts with
+    | TBang :: r0 => match r0 with TId x :: r => (Some x, r) | _ => (None, ts) end
+    | _ => (None, ts)
+    end in
+  bind (p_qubit r1) (fun q r2 =>
+    let '(target, r3) := match r2 with TId t :: r => (Some t, r) | _ => (None, r2) end in
+    bind (p_colon r3) (fun _ r4 => bind (p_block vr r4) (fun body r5 =>
+      Ok (DefCalMeasure name q target body) r5))).
+
+Definition p_defcircuit (vr : variant) (ts : list tok) : res item :=
+  match ts with
+  | TId name :: r =>
+      let '(ps, r1) := p_var_params r in
+      let '(qvars, r2) := p_qvars r1 in
+      bind (p_colon r2) (fun _ r3 => bind (p_block vr r3) (fun body r4 =>
+        Ok (DefCircuit name ps qvars body) r4))
+  | _ => Err
+  end.
+
+Definition p_defframe (ts : list tok) : res item :=
+  bind (p_frame ts) (fun f r => bind (p_colon r) (fun _ r1 =>
+    match p_attrs (S (length r1)) r1 with
+    | Ok [] _ => Err
+    | Ok l r2 => Ok (DefFrame f l) r2
+    | Err => Err | Panic => Panic | Unk => Unk | Fuel => Fuel
+    end)).
+
+(** [separated_list1(Comma, parse_expression)] *)
+Definition p_expr_list1 (ts : list tok) : res (list expr) :=
+  match p_expr_list ts with
+  | Ok [] _ => Err
+  | o => o
+  end.
+
+Definition p_defwaveform (ts : list tok) : res item :=
+  match ts with
+  | TId name :: r =>
+      let '(ext, r0) := match wf_ext r with Some (x, r') => (Some x, r') | None => (None, r) end in
+      let '(ps, r1) := p_var_params r0 in
+      match r1 with
+      | TColon :: TNewLine :: TIndent :: r2 =>
+          bind (p_expr_list1 r2) (fun es r3 => Ok (DefWaveform name ext ps es) r3)
+      | _ => Err
+      end
+  | _ => Err
+  end.
+
+(** [parse_instruction] including the definitions ([Unk]: DEFGATE) *)
+Definition p_item (vr : variant) (ts : list tok) : res item :=
+  match ts with
+  | TCmd CDefCal :: r =>
+      match r with
+      | TCmd CMeasure :: r' => p_defcal_measure vr r'
+      | _ => p_defcal_gate vr r
+      end
+  | TCmd CDefCircuit :: r => p_defcircuit vr r
+  | TCmd CDefFrame :: r => p_defframe r
+  | TCmd CDefWaveform :: r => p_defwaveform r
+  | _ => bind (p_instruction vr ts) (fun i r => Ok (Plain i) r)
+  end.
+
+Fixpoint p_items_loop (vr : variant) (fuel : nat) (ts : list tok) : res (list item) :=
+  match skip ts with
+  | [] => Ok [] []
+  | ts1 =>
+      match fuel with
+      | O => Fuel
+      | S f =>
+          match p_item vr ts1 with
+          | Ok i r =>
+              match p_items_loop vr f r with
+              | Ok l r' => Ok (i :: l) r'
+              | o => o
+              end
+          | Err => Err | Panic => Panic | Unk => Unk | Fuel => Fuel
+          end
+      end
+  end.
+
+Definition p_items (vr : variant) (ts : list tok) : res (list item) :=
+  p_items_loop vr (S (length ts)) ts.
+
+(** ** Well-formedness *)
+Fixpoint nodup_keys {A} (l : list (ident * A)) : bool :=
+  match l with
+  | [] => true
+  | x :: t => negb (existsb (fun y => ident_eqb (fst x) (fst y)) t) && nodup_keys t
+  end.
+
+Definition wf_attr (a : ident * attrval) : bool :=
+  match snd a with AVString _ => true | AVExpr e => wf_expr e end.
+
+Definition wf_item (it : item) : bool :=
+  match it with
+  | Plain i => wf_instr i
+  | DefCal _ _ ps _ body => forallb wf_expr ps && nonempty body && forallb wf_instr body
+  | DefCalMeasure _ _ _ body | DefCircuit _ _ _ body => nonempty body && forallb wf_instr body
+  | DefFrame f attrs =>
+      nonempty (fst f) && nonempty attrs && nodup_keys attrs && forallb wf_attr attrs
+  | DefWaveform _ _ _ entries => nonempty entries && forallb wf_expr entries
+  end.
+
+(** the canonical form of what the parser model returns: maps deduplicated *)
+Fixpoint amap_insert (x : ident * attrval) (l : list (ident * attrval)) : list (ident * attrval) :=
+  match l with
+  | [] => [x]
+  | y :: t => if ident_eqb (fst x) (fst y) then x :: t else y :: amap_insert x t
+  end.
+
+Definition norm_item (it : item) : item :=
+  match it with
+  | Plain i => Plain (norm_instr i)
+  | DefCal m n p q body => DefCal m n p q (map norm_instr body)
+  | DefCalMeasure n q t body => DefCalMeasure n q t (map norm_instr body)
+  | DefCircuit n p q body => DefCircuit n p q (map norm_instr body)
+  | DefFrame f attrs => DefFrame f (fold_left (fun acc x => amap_insert x acc) attrs [])
+  | DefWaveform _ _ _ _ => it
+  end.
+
 (** * Instance checker and case-file entry point *)
 
 Definition flit_eqb (a b : flit) : bool :=
@@ -438,6 +738,7 @@ Fixpoint toks_eqb (a b : list tok) : bool :=
     observations of the real chain. *)
 Inductive case :=
 | CFrag (t1 : list tok) (i1 : instr) (t2 : list tok) (p1_eq_p2 t2_eq_t3 : bool)
+| CItem (t1 : list tok) (it1 : item) (t2 : list tok) (p1_eq_p2 t2_eq_t3 : bool)
 | COpaque (print_ok p1_eq_p2 t2_eq_t3 : bool).
 
 (** the verified checker: the implementation's output tokens are the model's print of a
@@ -449,6 +750,13 @@ Definition chk_roundtrip (i1 : instr) (t2 : list tok) (p1_eq_p2 t2_eq_t3 : bool)
 Definition parses_to (ts : list tok) (i : instr) : bool :=
   match p_program Repaired ts with
   | Ok [j] [] => toks_eqb (print_instr (norm_instr j)) (print_instr i)
+  | _ => false
+  end.
+
+(** the same for a block definition ([CItem]) *)
+Definition parses_to_item (ts : list tok) (it : item) : bool :=
+  match p_items Repaired ts with
+  | Ok [j] [] => toks_eqb (print_item (norm_item j)) (print_item it)
   | _ => false
   end.
 
@@ -464,6 +772,12 @@ Definition case_code (c : case) : N :=
       else if negb (parses_to t2 i1) then 2%N
       else if negb (wf_instr i1 && toks_eqb (print_instr i1) t2) then 1%N
       else if negb (parses_to t1 i1) then 1%N
+      else 0%N
+  | CItem t1 it1 t2 b d =>
+      if negb (b && d) then 2%N
+      else if negb (parses_to_item t2 it1) then 2%N
+      else if negb (wf_item it1 && toks_eqb (print_item it1) t2) then 1%N
+      else if negb (parses_to_item t1 it1) then 1%N
       else 0%N
   end.
 
@@ -569,3 +883,36 @@ Fixpoint ph_failing_from (i : N) (l : list ph_case) : list (N * N) :=
   end.
 
 Definition ph_failing (l : list ph_case) : list (N * N) := ph_failing_from 0 l.
+
+(** A C04 case extended with the model comparison for a placeholder-free tree that the model AST
+    can represent: the tree [a] as built through the API, the real lexer's tokens [t] of the text
+    [to_quil] returned, and the abstraction [j] of the real re-parse of that text (if it parsed
+    and is representable).  Code 2: the printed tokens do not parse (in the parser model) to the
+    tree; code 1: the printer model and the serializer differ on the tree, or the real and the
+    model parser differ on the text. *)
+Definition frag := (item * list tok * option item)%type.
+
+Definition frag_code (f : frag) : N :=
+  let '(a, t, j) := f in
+  if negb (parses_to_item t a) then 2%N
+  else if negb (wf_item a && toks_eqb (print_item a) t) then 1%N
+  else match j with
+       | Some j => if toks_eqb (print_item j) (print_item a) then 0%N else 1%N
+       | None => 1%N
+       end.
+
+Definition phx_case := (ph_case * option frag)%type.
+
+Definition phx_code (c : phx_case) : N :=
+  N.max (ph_code (fst c)) (match snd c with Some f => frag_code f | None => 0%N end).
+
+Fixpoint phx_failing_from (i : N) (l : list phx_case) : list (N * N) :=
+  match l with
+  | [] => []
+  | c :: t =>
+      let code := phx_code c in
+      if N.eqb code 0 then phx_failing_from (N.succ i) t
+      else (i, code) :: phx_failing_from (N.succ i) t
+  end.
+
+Definition phx_failing (l : list phx_case) : list (N * N) := phx_failing_from 0 l.
